@@ -77,8 +77,16 @@ func (jd *JarDigest) Sign(ctx context.Context, cert *certloader.Certificate, ali
 func (jd *JarDigest) insertSignature(cert *x509.Certificate, alias string, sf, sig []byte) (*binpatch.PatchSet, error) {
 	signame, pkcsname := sigNames(cert.PublicKey, alias)
 	deflate := jd.shouldDeflate()
-	// Add new files to beginning of zip
+	// Add new files in front of the first existing file. Anything that is not
+	// part of a file (data in front of the archive, gaps between files) is left
+	// where it is by the patch, so existing files only move by the size of what
+	// was inserted or removed before them.
+	insertAt := jd.inz.DirLoc
+	if len(jd.inz.File) > 0 {
+		insertAt = int64(jd.inz.File[0].Offset)
+	}
 	outz := new(zipslicer.Directory)
+	outz.DirLoc = insertAt
 	var zipcon bytes.Buffer
 	mtime := time.Now()
 	if _, err := outz.NewFile(metaInf, jarMagic, nil, &zipcon, mtime, false, false); err != nil {
@@ -95,10 +103,12 @@ func (jd *JarDigest) insertSignature(cert *x509.Certificate, alias string, sf, s
 	}
 	// Patch out old files
 	patch := binpatch.New()
-	patch.Add(0, 0, zipcon.Bytes())
+	patch.Add(insertAt, 0, zipcon.Bytes())
+	delta := int64(zipcon.Len())
 	for _, f := range jd.inz.File {
 		if keepFile(f.Name) {
 			// Add existing file to the new zip directory. Its offset will be changed.
+			outz.DirLoc = int64(f.Offset) + delta
 			if _, err := outz.AddFile(f); err != nil {
 				return nil, err
 			}
@@ -112,8 +122,10 @@ func (jd *JarDigest) insertSignature(cert *x509.Certificate, alias string, sf, s
 				return nil, errors.New("signature file too big")
 			}
 			patch.Add(int64(f.Offset), size, nil)
+			delta -= size
 		}
 	}
+	outz.DirLoc = jd.inz.DirLoc + delta
 	zipdir := new(bytes.Buffer)
 	if err := outz.WriteDirectory(zipdir, zipdir, false); err != nil {
 		return nil, err
